@@ -951,6 +951,16 @@ fn compare_history(rep: &mut Report, b: &Pending, raw_model_outs: &[String]) {
     rep.compared_with_model += model_outs.len() as u64 - 1;
     for (idx, ((line, i), m)) in lines.iter().zip(impl_outs.iter()).zip(model_outs.iter()).enumerate() {
         rep.note_distinct(&format!("{hist_id}:{}", &line[line.find(' ').map(|x| x + 1).unwrap_or(0)..]));
+        // section accesses: the property (C20) demands none on a hit; on a miss the model says
+        // "touched", but an implementation that gets by with fewer accesses (a memo, a
+        // smarter lookup) is not wrong - only the hit side is compared strictly
+        let i_norm: String;
+        let i = if m.contains(" t=1") && i.contains(" t=0") {
+            i_norm = i.replace(" t=0", " t=1");
+            &i_norm
+        } else {
+            i
+        };
         if i != m {
             let cmd = &cmds[idx];
             let mut props: Vec<String> = Vec::new();
@@ -1451,6 +1461,29 @@ pub fn run(tier: &str, seed: u64) -> Report {
             }
         }
     }
-    rep.notes.push(format!("histories={n_hist} generation_draws={}", gens_x.len()));
+    // histories across the wrap of the 16-bit generation counter: the counter is advanced (by
+    // creating unwinders) to just below 65536 first, so that unwinders of the history hold the
+    // generations 0xfffc..=0xffff, 0, 1, ... - they must behave like any others (C06, C18 within
+    // the history, C20: generation 0 is not special)
+    let n_wrap = if tier == "thorough" { 48u64 } else { 8 };
+    let mut scratch = Vec::new();
+    for k in 0..n_wrap {
+        let target = 0u16.wrapping_sub(p.below(5) as u16);
+        let mut burnt = 0u32;
+        while framehop::verif_hooks::peek_global_modules_generation() != target && burnt < 70000 {
+            let _ = <X64H<MayAllocateDuringUnwind> as ArchH>::new_unw();
+            burnt += 1;
+        }
+        let arch = if k % 2 == 0 { Arch::X64 } else { Arch::A64 };
+        let len = 30 + p.below(60) as usize;
+        let h = gen_history(&mut p, arch, len);
+        match arch {
+            Arch::X64 => run_history::<X64H<MayAllocateDuringUnwind>>(&mut rep, &h, n_hist + k, &mut scratch),
+            Arch::A64 => run_history::<A64H<MayAllocateDuringUnwind>>(&mut rep, &h, n_hist + k, &mut scratch),
+        }
+        rep.count("histories across the generation counter wrap");
+    }
+    flush(&mut rep);
+    rep.notes.push(format!("histories={n_hist} generation_draws={} wrap_histories={n_wrap}", gens_x.len()));
     rep
 }
